@@ -1,4 +1,7 @@
-(* C08, forward simulation for HEAP statements, part 6c: Switch (dispatch through the jump table, or
+(* CHAIN VERSION of Proof/RVHSimHeapC.v: clauses may bind / closures may capture ANY number of variables; the landing
+   point of an Invoke comes from `hclo_ok` under the condition that the clause code contains an instruction of non-zero size
+   (Proof/RVKLayout.dispatch_layout_nz), `hsim_switch` also reports where the clause code sits in the code of the Switch.
+   C08, forward simulation for HEAP statements, part 6c: Switch (dispatch through the jump table, or
    fall-through for at most one clause, then the load of the fields) and Invoke (indirect jump through the
    data word of the closure, then the load of the captured environment).  The counterpart of
    Proof/X86HSimHeapC.v.  An indirect jump (`JALR`) lands on the instruction of non-zero size at the target
